@@ -242,6 +242,50 @@ def plan_C18(ctx):
     ctx.exhaustive = True
 
 
+# ----------------------------------------------------------------------------- schema: C07 C08 C09 C10
+SCHEMA_RULE = ("A: every history of <= MaxLen public mutator calls of RSForm generated by TLC from Schema.tla (Gen_Schema presets: "
+               "'ids' all operations with colliding / ill-formed aliases and identifiers; 'deps' definitions creating, breaking and "
+               "cycling dependencies; 'kinds' every constituent kind incl. functions, calls, axioms, structures, ill-typed / unparsable / "
+               "dangling definitions; 'names' renamings with prefix names, chains and mentions in definitions, conventions, references), "
+               "replayed on a real RSForm with the identifier hook; after the last call the projected state is compared with the "
+               "specification's content and from-scratch Analysis, with a copy reloaded from JSON, and the C09 invariants are evaluated "
+               "after every call. non-trivial = history of >= 2 calls; distinct = distinct history. ")
+
+
+def schema_plan(ctx, props, presets):
+    b = vcore.build()
+    h = hbin(b, "h_schema")
+    ctx.rule = SCHEMA_RULE
+    ctx.constants = {}
+    for pr in presets:
+        cfg = "Gen_Schema_%s%s.cfg" % ("q" if ctx.quick else "t", pr)
+        ctx.constants[cfg] = open(os.path.join(vcore.TLA, cfg)).read().split("SPECIFICATION")[0].split()
+        ctx.replay("Gen_Schema.tla", cfg, h, ["--props", ",".join(props)], tag=cfg[:-4], timeout=3400, xss="64m", xmx="12g")
+    ctx.exhaustive = True
+
+
+def plan_C09(ctx):
+    ctx.assumptions = ["INVARIANT SchemaInv is checked by TLC on the specification for the same histories (model level)",
+                       "exact re-issued aliases / list positions are compared at drift level; the property level is the invariants on the projected implementation state and 'refused => unchanged'"]
+    schema_plan(ctx, ["C09"], ["9", "8"])
+
+
+def plan_C07(ctx):
+    ctx.assumptions = ["from-scratch analysis is (i) Schema.tla's Analysis (least fixpoint over RSTyping) and (ii) a copy reloaded from the saved document",
+                       "resolved term / definition texts are compared only when term references are acyclic"]
+    schema_plan(ctx, ["C07"], ["7a", "7b", "9"])
+
+
+def plan_C08(ctx):
+    ctx.assumptions = ["schema-level clause: content after SetAliasFor / ResetAliases / re-issuing InsertCopy equals the specification's renamed content exactly (definitions, conventions, reference texts)"]
+    schema_plan(ctx, ["C08", "C07"], ["8"])
+
+
+def plan_C10(ctx):
+    ctx.assumptions = ["known finding K2 (cyclic term references) is reported as KNOWN-FINDING"]
+    schema_plan(ctx, ["C10"], ["9", "7b", "8"])
+
+
 def save_trace(ctx, trace, prefix, tag=""):
     """keep the prefix of a rejected trace (up to and including the offending event) as the replay artefact"""
     d = os.path.join(vcore.BUILD, "replays")
@@ -261,11 +305,11 @@ PLANS = {
     "C16": plan_C16,
     "C15": plan_C15,
     "C17": plan_C17,
-    "C04": plan_C04, "C18": plan_C18,
+    "C04": plan_C04, "C18": plan_C18, "C07": plan_C07, "C08": plan_C08, "C09": plan_C09, "C10": plan_C10,
     "C01": plan_C01, "C02": plan_C02, "C03": plan_C03, "C05": plan_C05, "C06": plan_C06,
 }
 
-HARNESS_OF = {"C14": "h_graph", "C20": "h_strings", "C16": "h_sdcompact", "C15": "h_values", "C17": "h_refs", "C04": "h_input", "C18": "h_reuse",
+HARNESS_OF = {"C14": "h_graph", "C20": "h_strings", "C16": "h_sdcompact", "C15": "h_values", "C17": "h_refs", "C04": "h_input", "C18": "h_reuse", "C07": "h_schema", "C08": "h_schema", "C09": "h_schema", "C10": "h_schema",
               "C01": "h_lang", "C02": "h_lang", "C03": "h_lang", "C05": "h_lang", "C06": "h_lang"}
 TRACE_SPEC_OF = {"C14": ("Trace_C14.tla", "Trace_C14.cfg"), "C20": ("Trace_C20.tla", "Trace_C20.cfg"),
                  "C16": ("Trace_C16.tla", "Trace_C16.cfg"), "C15": ("Trace_C15.tla", "Trace_C15.cfg"),
